@@ -15,7 +15,7 @@ RULE = (
     "as filename in each input form (distinct by construction); (b) Hypothesis-generated lists with names/filenames "
     "from that alphabet plus ordinary text, values str or bytes incl. CRLF, dash runs and boundary-like prefixes, input "
     "forms 2-tuple / (filename,data) / (filename,data,mime) / RequestField (make_multipart with custom disposition, "
-    "location, extra headers). Data never contains the boundary (explicit boundaries are drawn first and cut out of the "
+    "location, extra headers; several RequestFields may have been given one and the same headers dict). Data never contains the boundary (explicit boundaries are drawn first and cut out of the "
     "data by construction). Non-trivial = some name/filename contains one of \" CR LF ; \\ or some data contains CRLF "
     "or '--'. Distinct by hash of the case."
 )
@@ -51,6 +51,7 @@ def build_fields(case):
     from urllib3.fields import RequestField
 
     items = []
+    shared: dict = {}  # shared_headers: RequestFields whose extra headers are equal are given the SAME dict object
     for f in case["fields"]:
         form = f["form"]
         data = _data_obj(f["data"])
@@ -61,7 +62,10 @@ def build_fields(case):
         elif form == "file3":
             items.append((f["name"], (f["filename"], data, f["mime"])))
         elif form == "rf":
-            rf = RequestField(f["name"], data, filename=f.get("filename"), headers=dict(f.get("headers") or {}))
+            hd = dict(f.get("headers") or {})
+            if case.get("shared_headers"):
+                hd = shared.setdefault(core.canon(hd), hd)
+            rf = RequestField(f["name"], data, filename=f.get("filename"), headers=hd)
             if f.get("multipart", True):
                 rf.make_multipart(content_disposition=f.get("disposition"), content_type=f.get("mime"), content_location=f.get("location"))
             items.append(rf)
@@ -296,6 +300,8 @@ def _hyp_cases():
                     uniq.append(f)
             fields = uniq
         c = {"kind": "mp", "fields": fields, "container": container, "boundary": bnd}
+        if sum(1 for f in fields if f["form"] == "rf") >= 2 and draw(st.booleans()):
+            c["shared_headers"] = True
         if draw(st.integers(0, 3)) == 0:
             c.update(via="request", hstyle=draw(st.sampled_from(HSTYLES)), reuse=draw(st.booleans()))
         return c
@@ -350,6 +356,10 @@ def run_shard(spec):
                 f = {"name": "n", "form": "rf", "filename": s, "data": {"b": "v"}, "mime": "a/b", "location": "/l"}
             case = {"kind": "mp", "fields": [f, {"name": "tail", "form": "plain", "data": {"s": "t"}}], "container": "list", "boundary": "BOUND"}
             kx = len(s) * 7 + sum(map(ord, s))
+            if slot in ("rfname", "rffilename") and kx % 2:
+                # a second RequestField that was given the very same (empty) headers dict object
+                case["fields"] = [f, {"name": "second", "form": "rf", "filename": "b.txt", "data": {"s": "t"}, "disposition": f.get("disposition")}]
+                case["shared_headers"] = True
             if kx % 3 == 0:
                 case.update(via="request", hstyle=HSTYLES[kx % len(HSTYLES)], reuse=bool(kx % 2))
             fails = check_case(case)
